@@ -33,6 +33,8 @@ def check(c: Check):
     clause_b(c)
     clause_c(c)
     clause_d(c)
+    from .common import sweep_records
+    sweep_records(c, 'C12-rec', ['exactly_lib.tcfs', 'exactly_lib.type_val_deps.types.path'], floor=5)
 
 
 # ---------------------------------------------------------------- a
